@@ -66,7 +66,8 @@ def run_file_case(case):
 
 def finder_case(case):
     """Length = |ref gap| - |query gap| between the two flanking aligned labels; type insertion iff negative"""
-    which, rpos, qpos, pairs, brk = case
+    which, rpos, qpos, pairs, brk = case[:5]
+    flank = case[5] if len(case) > 5 else None      # the flanking pair recorded at the breakpoint, when it is not a pair of the joined alignment itself
     from src.diagnostic.benchmark_alignment import BenchmarkAlignedPair
 
     class M:
@@ -78,7 +79,8 @@ def finder_case(case):
     try:
         if which == 'molecule':
             import molecule_indels as m
-            out = m.look_for_indels_in_breakage({1: [al]}, {1: M(rpos)}, {5: M(qpos)}, {5: [brk, al.alignedPairs[brk]]})
+            fp = al.alignedPairs[brk] if flank is None else BenchmarkAlignedPair.create(str(flank[0]), str(flank[1]))
+            out = m.look_for_indels_in_breakage({1: [al]}, {1: M(rpos)}, {5: M(qpos)}, {5: [brk, fp]})
             lo = 2000
         else:
             import segment_indels as m
@@ -87,7 +89,7 @@ def finder_case(case):
     except Exception as e:
         return [f'exception:{type(e).__name__}:{e}'[:80]]
     bad = []
-    (r1, q1), (r2, q2) = pairs[brk], pairs[brk + 1]
+    (r1, q1), (r2, q2) = (pairs[brk] if flank is None or which != 'molecule' else tuple(flank)), pairs[brk + 1]
     diff = abs(rpos[r1 - 1] - rpos[r2 - 1]) - abs(qpos[q1 - 1] - qpos[q2 - 1])
     calls = out['insertion'] + out['deletion']
     # which sizes are reported (the band) is the program's choice and not part of the statement: only self-consistency is checked
@@ -154,6 +156,13 @@ def all_cases(tier, seed):
             qpos = [0, 8000, 8000 + qgap, 8000 + qgap + 9000]
             for pairs in (((1, 1), (2, 2), (3, 3), (4, 4)), ((2, 1), (3, 2), (4, 3), (5, 4))):
                 cs.append(('finder', (which, rpos, qpos, pairs, 1)))
+    # the flanking pair of molecule_indels comes from the first-/second-pass record, the next pair from the joined one: the two labels can
+    # DESCEND on the reference (the join replaced the tail of the partial alignment), and query labels descend on the reverse strand
+    for qgap in (150, 2100, 7000, 9000, 13000, 20000):
+        qpos = [0, 8000, 8000 + qgap, 8000 + qgap + 9000, 8000 + qgap + 20000]
+        for pairs, flank in ((((1, 1), (2, 2), (3, 3), (4, 4)), (5, 2)), (((1, 1), (2, 2), (3, 3), (4, 4)), (6, 2)),
+                             (((1, 5), (2, 4), (3, 3), (4, 2)), (2, 4)), (((1, 5), (2, 4), (3, 3), (4, 2)), (5, 4)), (((2, 4), (3, 3), (4, 2), (5, 1)), (6, 3))):
+            cs.append(('finder', ('molecule', rpos, qpos, pairs, 1, flank)))
     return cs
 
 
